@@ -287,13 +287,26 @@ Print Assumptions operand_snapshot_sound.
 
 (* … and so does every rule that copies whenever the later operand can assign that local *)
 Theorem operand_rule_sound_general : forall snapshot : ex -> ex -> bool,
-  (forall x b, snapshot (Loc x) b = false -> assigns x b = false) ->
+  (forall x b, snapshot (Loc x) b = false -> may_assign x b = false) ->
   forall (e : ex) (st : store), cmp snapshot e st = ref e st.
 Proof. exact operand_rule_sound. Qed.
 Check operand_rule_sound_general : forall snapshot : ex -> ex -> bool,
-  (forall x b, snapshot (Loc x) b = false -> assigns x b = false) ->
+  (forall x b, snapshot (Loc x) b = false -> may_assign x b = false) ->
   forall (e : ex) (st : store), cmp snapshot e st = ref e st.
 Print Assumptions operand_rule_sound_general.
+
+(* a rule that accepts a property access with a harmless target and does not look at the computed key
+   (`x + a[x++]`) violates the hypothesis above and is wrong *)
+Theorem operand_member_fastpath_refuted :
+  exists (e : ex) (st : store), snapshot_member_fastpath (Loc 0) (Idx (Loc 1) (Asg 0 (Lit 5))) = false /\
+               may_assign 0 (Idx (Loc 1) (Asg 0 (Lit 5))) = true /\
+               fst (cmp snapshot_member_fastpath e st) <> fst (ref e st).
+Proof. exact operand_member_fastpath_refuted_. Qed.
+Check operand_member_fastpath_refuted :
+  exists (e : ex) (st : store), snapshot_member_fastpath (Loc 0) (Idx (Loc 1) (Asg 0 (Lit 5))) = false /\
+               may_assign 0 (Idx (Loc 1) (Asg 0 (Lit 5))) = true /\
+               fst (cmp snapshot_member_fastpath e st) <> fst (ref e st).
+Print Assumptions operand_member_fastpath_refuted.
 
 Theorem operand_snapshot_old_refuted : exists (e : ex) (st : store), fst (cmp snapshot_old e st) <> fst (ref e st).
 Proof. exact operand_snapshot_old_refuted_. Qed.
